@@ -91,6 +91,8 @@ class Resolver:
         self.sym = sym or {}                   # {'sym_a': char list} -- values of the corpus' symbolic string expressions
         self.log = []
         self.current_item = None               # corpus item whose decl() is executing (bare dummy names refer to it)
+        self.depth = 0                         # nesting of impl bodies being executed (0 = called by the harness or by the item itself)
+        self.direct = []                       # [(type text, method)] calls made by the outermost body (depth 1)
 
     def install(self, m):
         m.stubs.append((self.RX, self.method))
@@ -137,6 +139,8 @@ class Resolver:
         q = self.RX.match(callee)
         ty, meth = strip_lifetimes(q.group(1)), q.group(2)
         ty = re.sub(r'\b(?:std::num::)?NonZero<([ui])(\d+|size)>', lambda a: 'NonZero' + a.group(1).upper() + a.group(2), ty)
+        if self.depth == 1:
+            self.direct.append((ty, meth))
         if ty in self.abstract:
             return self.hole(ty, meth, m)
         oi = re.match(r'^<(\w+) as (?:crate::|::ts_rs::|ts_rs::)?TS>::OptionInnerType$', ty)
@@ -197,9 +201,11 @@ class Resolver:
         saved_fr = m.frame_rewrite
         m.cur_subst = dict(sub)
         m.frame_rewrite = rewrite
+        self.depth += 1
         try:
             return m.exec_fn(m.fns[fn_key], args)
         finally:
+            self.depth -= 1
             m.cur_subst = saved
             m.frame_rewrite = saved_fr
 
